@@ -76,7 +76,37 @@ func (l lockedIdentity) Unwrap(stanzas []*age.Stanza) ([]byte, error) {
 	return id.Unwrap(stanzas)
 }
 
+// edWithSeedCounter makes the Ed25519 key number i of a labelled family.
+func edWithSeedCounter(label string, i uint32, name string) *Ed {
+	var ctr [4]byte
+	binary.BigEndian.PutUint32(ctr[:], i)
+	seed := sha256.Sum256(append([]byte(label), ctr[:]...))
+	priv := ed25519.NewKeyFromSeed(seed[:])
+	pub := []byte(priv.Public().(ed25519.PublicKey))
+	sp, err := ssh.NewPublicKey(ed25519.PublicKey(pub))
+	if err != nil {
+		panic(err)
+	}
+	line := string(ssh.MarshalAuthorizedKey(sp))
+	return &Ed{Name: name, Seed: seed[:], Pub: pub, SSHPub: sp, PubLine: line[:len(line)-1], Ref: refage.EdKey{Seed: seed[:], Pub: pub}}
+}
+
 func addSpecialParties(world map[string]*Party) {
+	// EC1, EC2: two DIFFERENT Ed25519 SSH keys whose 32-bit recipient tags are
+	// equal (found once by a birthday search over this family: numbers 1420 and
+	// 34786, tag IyHGGA; checked here)
+	ec1, ec2 := edWithSeedCounter("verif-ed-collide-", 1420, "ed-collide-1"), edWithSeedCounter("verif-ed-collide-", 34786, "ed-collide-2")
+	if refage.SSHTag(refage.SSHEd25519Wire(ec1.Pub)) != refage.SSHTag(refage.SSHEd25519Wire(ec2.Pub)) || string(ec1.Pub) == string(ec2.Pub) {
+		panic("keys: the colliding pair does not collide")
+	}
+	for i, e := range []*Ed{ec1, ec2} {
+		e := e
+		n := fmt.Sprintf("EC%d", i+1)
+		p := &Party{Name: n, Kind: 'E', Ref: e.Ref}
+		p.Recipient = safeRecipient(n, func() age.Recipient { r, _ := e.fromCrypto(); return r })
+		p.Identity = safeIdentity(n, func() age.Identity { _, id := e.fromCrypto(); return id })
+		world[n] = p
+	}
 	for i, n := range []string{"EZ1", "EZ2"} {
 		e := edWithShortU(i + 1)
 		p := &Party{Name: n, Kind: 'E', Ref: e.Ref}
